@@ -280,7 +280,7 @@ package sql
 // rows) asks the registry for exactly what partregistry.RefsFromPartIds computes from the caller's list: one reference
 // per listed occurrence.
 //@ func (*sqlMetadataStore).TryAddPartReferences
-//@ property C08 C14
+//@ property C08 C13 C14
 //@ mode effects
 //@ effect[C08:references-acquired-per-listed-occurrence] every sms.partRegistryRepository.TryAddReferences(_, $t, $refs)
 //@     needs before partregistry.RefsFromPartIds($ids) -> ($r)
